@@ -106,6 +106,17 @@ def exec_step(world, step, idx):
             world.count("fault_downtime")
             world.count("sim_seconds", down)
         world.start(step=idx, kind="restart")
+    elif op == "reconnect":
+        # a client that lost its connection comes back on a new one: it still
+        # knows what it had been told (`last`), binds again and re-opens its mailbox
+        cid = step["c"]
+        if cid not in world.conns:
+            world.connect(cid, step=idx)
+            world.conns[cid].last.update(step.get("last") or {})
+            if step.get("app") is not None:
+                world.send(cid, [{"type": "bind", "appid": step["app"], "side": step["side"]}], step=idx)
+                if step.get("reopen") is not None:
+                    world.send(cid, [{"type": "open", "mailbox": step["reopen"]}], step=idx)
     elif op == "bounce":
         # C11 reference world: the clients merely drop; only the periodic timer is
         # re-started so that both worlds sweep at once and share the sweep phase
